@@ -88,6 +88,22 @@ def cases(rng, tier):
         elif r < 0.75: a.finals = [q for q in st if rng.random() < 0.4]; b.finals = [q for q in st if rng.random() < 0.4]
         else: a.starts = [q for q in st if rng.random() < 0.4]; b.starts = [q for q in st if rng.random() < 0.4]; b.finals = b.finals + [rng.choice(st)]
         cs.append(("incl F %s %s" % (a.fmt(), b.fmt()), "shared_table"))
+    for _ in range(120 if tier == "quick" else 600):
+        # many start states (the start-state set is iterated in hash order and rehashed as it grows): some of them final, the empty word (or a
+        # one-letter word) the only possible counterexample; and few start states in front of a long chain of further states
+        k = rng.choice([2, 3, 4, 11, 12, 16, 17, 20])
+        ids = rng.sample(range(1, 90), k) if rng.random() < 0.5 else list(range(1, k + 1))
+        fs = [q for q in ids if rng.random() < 0.1] or [rng.choice(ids)]             # final start states: no transitions
+        if rng.random() < 0.5: fs = [rng.choice(ids)]
+        n = rng.choice([1, 1, 3, 12, 13, 14]); base = 2000
+        edges = [(q, 0, base + 1) for q in ids if q not in fs] + [(base + i, 0, base + i + 1) for i in range(1, n)]
+        a = gen.NFA(ids, fs + [base + n], edges)
+        # B = A without the final start states: L(B) = L(A) minus the empty word; in a third of the cases B accepts the empty word as well
+        b = gen.NFA([q for q in ids if q not in fs], [base + n], edges)
+        if rng.random() < 0.33: b.starts = b.starts + [3000]; b.finals = b.finals + [3000]
+        if not b.starts: b.starts = [3001]
+        if rng.random() < 0.1: a, b = b, a
+        cs.append((line(rng, a, b), "many_starts"))
     n = 4000 if tier == "quick" else 80000
     for _ in range(n):
         ns = rng.choice([2, 2, 3])
